@@ -31,7 +31,7 @@ def run(F, R, tier):
     if not R.anchor("run_prompt: read-eval loop with its session state (%s)" % res.get("error", "found"), "error" not in res):
         return
     B, (h, body), state = res["body"], res["loop"], res["state_locals"]
-    names = {l: B.local_name(l) for l in state}
+    names = res["names"]
     R.count("REPL session-state locals", len(state))
     R.count("rejected paths to the back edge", res["rejected_paths"])
     R.count("accepted paths to the back edge", len(res["accepted"]))
@@ -87,6 +87,22 @@ def run(F, R, tier):
         for b_ in M.call_blocks(Bg, lambda t: (t.get("callee") or "").endswith("VM::new_with_global_store")):
             a = Bg.blocks[b_]["term"]["args"][1]
             sym = Bg.sym_op(a, through_vars=True)
+            # moved out of a field of the loop-carried state struct (`mem::take(&mut state.globals)`): what that field is given
+            # where the struct is built
+            if sym[0] == "call" and (sym[1] or "").endswith(("mem::take", "mem::replace")) and sym[2]:
+                inner = sym[2][0]
+                while inner[0] in ("ref", "deref"):
+                    inner = inner[1]
+                if inner[0] == "field" and inner[1][0] == "var":
+                    fld = inner[2]
+                    for (bi, si, node) in Bg.defs().get(inner[1][2], []):
+                        rv_ = node.get("rv") if si != "term" else None
+                        if rv_ and rv_["k"] == "agg" and rv_.get("ops") is not None:
+                            fl_ = rv_.get("fields") or []
+                            for i_, op_ in enumerate(rv_["ops"]):
+                                if (fl_[i_] if i_ < len(fl_) else str(i_)) == fld or str(i_) == str(fld):
+                                    srcs.append(Bg.sym_op(op_, through_vars=True))
+                    continue
             # through the loop-carried variable: the definitions of that local outside any call result of the loop
             if sym[0] in ("var",):
                 for (bi, si, node) in Bg.defs().get(sym[2], []):
